@@ -75,91 +75,46 @@ def sortStrings (xs : List String) : List String :=
       | y :: ys => if x < y then x :: y :: ys else y :: ins ys
     ins acc) []
 
-def showSnap (s : CState) (id : Nat) : String :=
-  match findCl s.cls id with
-  | some c => s!"snap keys={",".intercalate (sortStrings (c.keys.map (·.1)).eraseDups)}"
-  | none => "error"
-
 def cdump (s : CState) : String :=
   showDump { m := s.m.map (fun p => (p.1, p.2.1)), now := s.now, maxTTL := s.maxTTL }
 
-def runLabels (s : CState) (ls : List Label) (ok : CState → String) : CState × String :=
-  match crun s ls with
-  | some s' => (s', ok s')
-  | none => (s, "error")
-
-def concStep (s : CState) (l : Line) : CState × String :=
+def parseReq (l : Line) : Option Req :=
   match l.op with
-  | "set" =>
-    match l.get? "k", l.nat? "v", l.int? "ttl" with
-    | some k, some v, some ttl =>
-      if ttl ≤ 0 then (s, "panic") else runLabels s [.set k v ttl] (fun _ => "ok")
-    | _, _, _ => (s, "error")
-  | "get" =>
-    match l.get? "k" with
-    | some k =>
-      let r := getOfC s k
-      runLabels s [.get k r] (fun _ => match r with | some v => s!"hit v={v}" | none => "miss")
-    | none => (s, "error")
-  | "del" =>
-    match l.get? "k" with
-    | some k => runLabels s [.delete k] (fun _ => "ok")
-    | none => (s, "error")
-  | "adv" =>
-    match l.nat? "d" with
-    | some d =>
-      let due := !s.tickerStopped && decide (s.nextTick ≤ s.now + d) && decide (0 < s.period)
-      let t := if due then (if s.tickPending then "drop" else "sent") else "none"
-      runLabels s [.advance d] (fun _ => s!"ok tick={t}")
-    | none => (s, "error")
-  | "cbegin" =>
-    match l.nat? "id", l.get? "kind" with
-    | some id, some kind =>
-      if kind != "cleanup" && kind != "reset" then (s, "error") else
-      match cstep s (.cBegin id (kind == "reset")) with
-      | some s1 => match crun s1 (snapLabels s1 id) with
-        | some s2 => (s2, showSnap s2 id)
-        | none => (s, "error")
-      | none => (s, "error")
-    | _, _ => (s, "error")
-  | "cfinish" =>
-    match l.nat? "id" with
-    | some id => if id = 0 then (s, "error") else runLabels s (bulkLabels s id) (fun _ => "ok")
-    | none => (s, "error")
-  | "bgsnap" =>
-    match cstep s .bgTake with
-    | some s1 => match crun s1 (snapLabels s1 0) with
-      | some s2 => (s2, showSnap s2 0)
-      | none => (s, "error")
-    | none => (s, "error")
-  | "bgfinish" => runLabels s (bulkLabels s 0) (fun _ => "ok")
-  | "stop" =>
-    -- a Stop call that is expected to return at once (caller id 0 of the script)
-    let exitL : List Label := if s.bg = .idle then [.bgExit] else []
-    runLabels s ([.stopCall 0] ++ exitL ++ [.stopReturn 0]) (fun _ => "ok")
-  | "stopcall" =>
-    -- a concurrent Stop caller: `returned` iff, after the internal steps that are enabled
-    -- (the idle periodic goroutine seeing stopCh closed), its `stopReturn` is enabled
-    match l.nat? "id" with
-    | some id =>
-      match cstep s (.stopCall id) with
-      | some s1 =>
-        let s2 := match cstep s1 .bgExit with | some x => x | none => s1
-        match cstep s2 (.stopReturn id) with
-        | some s3 => (s3, "returned")
-        | none => (s2, "blocked")
-      | none => (s, "error")
-    | none => (s, "error")
-  | "stopwait" =>
-    match l.nat? "id" with
-    | some id =>
-      let s1 := match cstep s .bgExit with | some x => x | none => s
-      match cstep s1 (.stopReturn id) with
-      | some s2 => (s2, "ok")
-      | none => (s, "error")
-    | none => (s, "error")
-  | "dump" => (s, cdump s)
-  | _ => (s, "error")
+  | "set" => do let k ← l.get? "k"; let v ← l.nat? "v"; let ttl ← l.int? "ttl"; pure (.set k v ttl)
+  | "get" => do let k ← l.get? "k"; pure (.get k)
+  | "del" => do let k ← l.get? "k"; pure (.del k)
+  | "adv" => do let d ← l.nat? "d"; pure (.adv d)
+  | "cbegin" => do
+      let id ← l.nat? "id"; let kind ← l.get? "kind"
+      if kind == "cleanup" then pure (.cbegin id false)
+      else if kind == "reset" then pure (.cbegin id true) else none
+  | "cfinish" => do let id ← l.nat? "id"; pure (.cfinish id)
+  | "bgsnap" => some .bgsnap
+  | "bgfinish" => some .bgfinish
+  | "stop" => some .stop
+  | "stopcall" => do let id ← l.nat? "id"; pure (.stopcall id)
+  | "stopwait" => do let id ← l.nat? "id"; pure (.stopwait id)
+  | _ => none
+
+def showResp : Resp → String
+  | .ok => "ok"
+  | .panic => "panic"
+  | .hit v => s!"hit v={v}"
+  | .miss => "miss"
+  | .ticked .sent => "ok tick=sent"
+  | .ticked .drop => "ok tick=drop"
+  | .ticked .none => "ok tick=none"
+  | .snap ks => s!"snap keys={",".intercalate (sortStrings ks).eraseDups}"
+  | .returned => "returned"
+  | .blocked => "blocked"
+  | .error => "error"
+
+/-- One script line: `dump` observes the state; everything else is `KitModel.TTLCache.respond`. -/
+def concStep (s : CState) (l : Line) : CState × String :=
+  if l.op == "dump" then (s, cdump s) else
+  match parseReq l with
+  | some r => let a := respond s r; (a.state, showResp a.resp)
+  | none => (s, "error")
 
 inductive DState where
   | seq (c : Cache)
